@@ -423,7 +423,7 @@ def probe_impl_static(chk, work, stats):
     src = PROBE_IMPL_STATIC.split("\n")
     line = {name: n + 1 for n, l in enumerate(src) for name in ("src_0()", "src_1()", "src_2()") if "snk(" in l and name in l}
     verdicts = set()
-    runs = 4
+    runs = 2
     for _ in range(runs):
         res = run_taint([d], par=1)
         fl, errs = res.get(d, (set(), ["no output"]))
